@@ -3663,7 +3663,11 @@ func (r *JournalReader) Next() (err error) {
 
 	// Only read sector and page size from first journal header.
 	if r.offset == 0 {
-		r.sectorSize = binary.BigEndian.Uint32(hdr[20:])
+		sectorSize := binary.BigEndian.Uint32(hdr[20:])
+		if sectorSize == 0 {
+			return io.EOF // invalid sector size, SQLite ignores the journal
+		}
+		r.sectorSize = sectorSize
 
 		// Use page size from journal reader, if set to 0.
 		pageSize := binary.BigEndian.Uint32(hdr[24:])
